@@ -128,6 +128,23 @@ func TestGovcAudit(t *testing.T) {
 			}
 		}
 	}
+	// EncodeVarint(buf, off, v) fills the SizeOfVarint(v) bytes below off, returns off - SizeOfVarint(v),
+	// touches nothing else and does not panic when there is room
+	for sh := uint(0); sh < 64; sh++ {
+		for _, d := range []uint64{0, 1} {
+			n++
+			x := uint64(1)<<sh - d
+			sz := protohelpers.SizeOfVarint(x)
+			buf := make([]byte, sz+3)
+			for i := range buf {
+				buf[i] = 0xEE
+			}
+			r := protohelpers.EncodeVarint(buf, sz+1, x)
+			if r != 1 || buf[0] != 0xEE || buf[sz+1] != 0xEE || buf[sz+2] != 0xEE {
+				fail("EncodeVarint(%d): returned %d, frame %v", x, r, buf)
+			}
+		}
+	}
 	e := errors.New("x")
 	n += 6
 	if errors.WithStack(nil) != nil || errors.WithStack(e) == nil || errors.Wrap(nil, "m") != nil || errors.Wrap(e, "m") == nil || errors.Wrapf(nil, "m") != nil || errors.Wrapf(e, "m") == nil || errors.Errorf("x") == nil || fmt.Errorf("x") == nil {
